@@ -156,6 +156,8 @@ var schemas = map[string][]field{
 	"NewNHGMember":  {{"Index", "Index", kNat}},
 	"NewNHG":        {{"NextHop", "NextHop", kind{k: "list", s: "NewNHGMember", elemNN: true}}},
 	"OrigNHG":       {{"NextHop", "NextHop", kind{k: "list", s: "OrigNHGMember", elemNN: true, keyed: true}}},
+	"ErrView":       {{"AsClientErr", "AsClientErr", kPtr("ClientErrG")}},
+	"ClientErrG":    {{"Send", "Send", kind{k: "list", s: "Status", elemNN: true}}, {"Recv", "Recv", kind{k: "list", s: "Status", elemNN: true}}},
 	"FlNHG":         {{"BackupNextHopGroup", "BackupNextHopGroup", kPtr("UintBox")}},
 	"UintBox":       {},
 	"FlushErr":      {{"Errs", "Errs", kind{k: "list", s: "Status", elemNN: true}}},
@@ -182,7 +184,7 @@ var leanStruct = map[string]string{
 	"IPv4EntryC": "IPv4EntryC", "IPv6EntryC": "IPv6EntryC", "LabelEntryC": "LabelEntryC", "NHGEntryC": "NHGEntryC", "NHEntryC": "NHEntryC", "AFTOperationC": "AFTOperationC", "ModifyRequestC": "ModifyRequestC",
 	"AFTErrorDetails": "AFTErrorDetails", "AFTResultC": "AFTResultC", "SessionParametersResult": "SessionParametersResult", "ModifyResponseC": "ModifyResponseC", "PendingOp": "PendingOp",
 	"ElectionReqDetails": "ElectionReqDetails", "SessionParamReqDetails": "SessionParamReqDetails", "OpDetailsResults": "OpDetailsResults", "COpResult": "COpResult",
-	"AFTResultList": "(List AFTResultC)", "Bool": "Bool", "pendingQueue": "PendingQueue", "pendingEntry": "PendingEntry", "RibOpResult": "RibOpResult", "OrigTop": "OrigTop", "OrigNHGMember": "OrigNHGMember", "OrigNHG": "OrigNHG", "KeyRIB": "KeyRIB", "GPrefix": "GPrefix", "GLabel": "GLabel", "GId": "GId", "GIndex": "GIndex", "GAFTEntry": "GAFTEntry", "cache": "GetCache", "GetResponseG": "GetResponseG", "ReconEntS": "ReconEnt", "ReconEntN": "ReconEnt", "ReconAfts": "ReconAfts", "ReconNI": "ReconNI", "ReconOp": "ReconOp", "TblEntry": "TblEntry", "NewElem": "NewElem", "NewAfts": "NewAfts", "NewRIB": "NewRIB", "StringValue": "StringValue", "UintValue": "UintValue", "NewTop": "NewTop", "NewNHGMember": "NewNHGMember", "NewNHG": "NewNHG", "FlNHG": "FlNHG", "UintBox": "Nat", "FlushErr": "FlushErr", "Nat": "Nat", "Status": "Status",
+	"AFTResultList": "(List AFTResultC)", "Bool": "Bool", "pendingQueue": "PendingQueue", "pendingEntry": "PendingEntry", "RibOpResult": "RibOpResult", "OrigTop": "OrigTop", "OrigNHGMember": "OrigNHGMember", "OrigNHG": "OrigNHG", "KeyRIB": "KeyRIB", "GPrefix": "GPrefix", "GLabel": "GLabel", "GId": "GId", "GIndex": "GIndex", "GAFTEntry": "GAFTEntry", "cache": "GetCache", "GetResponseG": "GetResponseG", "ReconEntS": "ReconEnt", "ReconEntN": "ReconEnt", "ReconAfts": "ReconAfts", "ReconNI": "ReconNI", "ReconOp": "ReconOp", "TblEntry": "TblEntry", "NewElem": "NewElem", "NewAfts": "NewAfts", "NewRIB": "NewRIB", "StringValue": "StringValue", "UintValue": "UintValue", "NewTop": "NewTop", "NewNHGMember": "NewNHGMember", "NewNHG": "NewNHG", "FlNHG": "FlNHG", "ErrView": "ErrView", "ClientErrG": "ClientErrG", "UintBox": "Nat", "FlushErr": "FlushErr", "Nat": "Nat", "Status": "Status",
 }
 
 func leanType(k kind) string {
@@ -2385,6 +2387,9 @@ func trCall(c *ast.CallExpr, en env) []val {
 				fail(c.Pos(), "call of %s with %d arguments", fn, len(c.Args))
 			}
 			for j, a := range c.Args {
+				if sp.params[j].skip {
+					continue
+				}
 				x := trExpr(a, en)
 				p := sp.params[j]
 				if p.nonnil {
@@ -3134,6 +3139,31 @@ func trAssign(a *ast.AssignStmt, en env) env {
 					}
 				}
 			}
+			if fname, ok := cur.assertPtrFields[render(ta)]; ok {
+				// v, ok := x.(*T) of an interface value x represented by a struct: what x holds when
+				// its dynamic type is *T is a pointer field of the representation (nil otherwise, and
+				// for a nil x); ok is true exactly when that pointer is not nil
+				x := trExpr(ta.X, en)
+				if x.kd.k != "ptr" {
+					fail(a.Pos(), "type assertion on a value of kind %s", x.kd)
+				}
+				f := fieldOf(x.kd.s, fname, a.Pos())
+				var p val
+				if b, bound := en.bound[x.path]; bound {
+					p = val{lean: b + "." + f.lean, kd: f.kd, path: x.path + "." + fname}
+				} else if en.isNil[x.path] {
+					p = val{lean: "none", kd: f.kd, path: x.path + "." + fname}
+					en.isNil[p.path] = true
+				} else {
+					p = val{lean: "(" + atom(x.lean) + ".bind (fun v => v." + f.lean + "))", kd: f.kd, path: x.path + "." + fname}
+				}
+				okv := val{lean: "(" + atom(p.lean) + ".isSome)", kd: kBool, path: "okof:" + p.path}
+				okPairs[okv.path] = p
+				define := a.Tok == token.DEFINE
+				bindResult(&en, a.Lhs[0].(*ast.Ident).Name, p, define, a.Pos())
+				bindResult(&en, a.Lhs[1].(*ast.Ident).Name, okv, define, a.Pos())
+				return en
+			}
 			pn, known := cur.subst[render(ta)]
 			if id, isId := a.Lhs[0].(*ast.Ident); !known || !isId || id.Name != "_" {
 				fail(a.Pos(), "type assertion %s", render(ta))
@@ -3565,6 +3595,12 @@ func trStmts(list []ast.Stmt, en env, k cont) string {
 					return wrapLets(lets, next(e1))
 				}
 			}
+			if cur != nil && cur.fatalNil {
+				if fn := render(c.Fun); fn == "t.Fatalf" || fn == "t.Fatal" {
+					// the test is failed and its goroutine ends: the caller never sees a result (none)
+					return wrapResult("none")
+				}
+			}
 			if cur != nil && cur.tbFatal {
 				fn := render(c.Fun)
 				if fn == "t.Fatalf" || fn == "t.Fatal" {
@@ -3727,6 +3763,18 @@ func trStmts(list []ast.Stmt, en env, k cont) string {
 	case *ast.AssignStmt:
 		e1 := trAssign(v, en)
 		lets := takeLets()
+		if cur != nil && cur.tbFatal && len(v.Lhs) == 1 && len(v.Rhs) == 1 {
+			if c, ok := v.Rhs[0].(*ast.CallExpr); ok {
+				for i := range specs {
+					if specs[i].callAs == render(c.Fun) && specs[i].fatalNil {
+						// a helper that fails the test itself and then does not return: nothing after
+						// the call runs; its generated definition says so by returning none
+						test := &ast.BinaryExpr{X: v.Lhs[0], Op: token.NEQ, OpPos: v.Pos(), Y: &ast.Ident{Name: "nil", NamePos: v.Pos()}}
+						return wrapLets(lets, trCond(test, e1, next, func(e env) string { return tbResult(e, "false") }))
+					}
+				}
+			}
+		}
 		return wrapLets(lets, next(e1))
 	case *ast.BlockStmt:
 		return trBlock(v.List, en, next)
